@@ -460,18 +460,57 @@ def r5_totality(ctx, rule):
     L = params(fn)[0]
     txt = U(fn)
     loops = [s for s in fn.body if isinstance(s, ast.While)]
+    floops = [s for s in fn.body if isinstance(s, ast.For)]
     ok = True
-    if len(loops) != 1 or U(loops[0].test) != 'index < len(%s)' % L:
-        ok = False
-    else:
+    recognised = True
+    mod = ctx.repo.modules[q.partition('::')[0]]
+    if len(loops) == 1 and not floops and U(loops[0].test) == 'index < len(%s)' % L:
         lp = loops[0]
         want = "%s[index] = (%s[index][0], 'O' + str(len(%s[index][0])))" % (L, L, L)
         assigns = [s for s in walk_stmts(lp.body) if isinstance(s, ast.Assign) and U(s.targets[0]) == '%s[index]' % L]
-        mod = ctx.repo.modules[q.partition('::')[0]]
         if len(assigns) != 1 or U(assigns[0]) != want or \
                 [(U(t), p) for t, p in path_conditions(mod, assigns[0], stop=lp)] != [('%s[index][1] is None' % L, True)] \
                 or U(lp.body[-1]) != 'index += 1' or any(isinstance(s, (ast.Break, ast.Continue, ast.Return)) for s in walk_stmts(lp.body)):
             ok = False
+    elif len(floops) == 1 and not loops and U(floops[0].iter) == 'enumerate(%s)' % L and isinstance(floops[0].target, ast.Tuple) \
+            and len(floops[0].target.elts) == 2 and isinstance(floops[0].target.elts[0], ast.Name):
+        # for i, e in enumerate(L) / for i, (v, l) in enumerate(L): every index is visited by construction; the element names
+        # denote L[i][0], L[i][1] as long as they are read before L[i] is replaced
+        lp = floops[0]
+        i = lp.target.elts[0].id
+        e = lp.target.elts[1]
+        sub = {}
+        if isinstance(e, ast.Name):
+            sub[e.id] = '%s[%s]' % (L, i)
+        elif isinstance(e, ast.Tuple) and all(isinstance(x, ast.Name) for x in e.elts):
+            for k, x in enumerate(e.elts):
+                sub[x.id] = '%s[%s][%d]' % (L, i, k)
+
+        def T(node):
+            import copy as _cp
+
+            class R(ast.NodeTransformer):
+                def visit_Name(self, n):
+                    if n.id in sub and isinstance(n.ctx, ast.Load):
+                        return ast.parse(sub[n.id], mode='eval').body
+                    return n
+            return U(R().visit(_cp.deepcopy(node)))
+        want = "%s[%s] = (%s[%s][0], 'O' + str(len(%s[%s][0])))" % (L, i, L, i, L, i)
+        assigns = [s for s in walk_stmts(lp.body) if isinstance(s, ast.Assign) and U(s.targets[0]) == '%s[%s]' % (L, i)]
+        conds = [(T(t), p) for t, p in path_conditions(mod, assigns[0], stop=lp)] if len(assigns) == 1 else None
+        jumps = [s for s in walk_stmts(lp.body) if isinstance(s, (ast.Break, ast.Return))]
+        conts = [s for s in walk_stmts(lp.body) if isinstance(s, ast.Continue)]
+        cont_ok = all([(T(t), p) for t, p in path_conditions(mod, c, stop=lp)] in ([('%s[%s][1] is not None' % (L, i), True)],
+                                                                                    [('%s[%s][1] is None' % (L, i), False)]) for c in conts)
+        if len(assigns) != 1 or T(assigns[0]) != want or jumps or not cont_ok or \
+                conds not in ([('%s[%s][1] is None' % (L, i), True)], [('%s[%s][1] is not None' % (L, i), False)]) or not sub:
+            ok = False
+    else:
+        recognised = False
+        ok = False
+    if not recognised:
+        ctx.unk(rule, q, 'the loop over the section list is not in a recognised form (index while-loop or for .. in enumerate)')
+        return
     if ok:
         ctx.ok(rule, q, "every section that is still None is labelled 'O' + len; every index visited")
     else:
@@ -548,13 +587,43 @@ def r6_counter_pairing(ctx, rule):
     # _update_counter_len_indexed keys by len(item) of the item counted
     uq = PARSER + '_update_counter_len_indexed'
     ufn = ctx.fn(uq)
-    txt = U(ufn)
     ps = params(ufn)
-    if txt.count('%s[len(item)][item] += 1' % ps[1]) == 2 and 'for item in %s' % ps[2] in txt and '%s[len(item)] = Counter()' % ps[1] in txt:
-        ctx.ok(rule, uq, 'length-indexed counters are keyed by len(item) of the item counted')
-    else:
+    cnt, lst = ps[1], ps[2]
+    loops = [n for n in ufn.body if isinstance(n, ast.For) and U(n.iter) == lst and isinstance(n.target, ast.Name)]
+    if len(loops) != 1:
         ok = False
-        ctx.bad(rule, uq, 'length-indexed update shape', 'counter[len(item)][item] += 1 for every item', None, ufn)
+        ctx.unk(rule, uq, 'the loop over the found list is not recognised')
+    else:
+        lp = loops[0]
+        it = lp.target.id
+        want_t = '%s[len(%s)][%s]' % (cnt, it, it)
+        augs = [n for n in walk_local(lp) if isinstance(n, ast.AugAssign)]
+        stores = [n for n in walk_local(lp) if isinstance(n, ast.Assign) and isinstance(n.targets[0], ast.Subscript)
+                  and U(n.targets[0].value).startswith(cnt)]
+        wrong = [U(a) for a in augs if not (U(a.target) == want_t and isinstance(a.op, ast.Add) and const(a.value) == 1)]
+        wrong += [U(a) for a in stores if not (U(a.targets[0]) == '%s[len(%s)]' % (cnt, it) and U(a.value) == 'Counter()')]
+        skips = [n for n in walk_stmts(lp.body) if isinstance(n, (ast.Continue, ast.Break, ast.Return))]
+        # every path through the body performs the increment exactly once: either `try: inc / except: create; inc`
+        # or `if <len> not in counter: create` followed by one unconditional inc
+        from ..cfg import CFG as _CFG
+        shape = None
+        body = [x for x in lp.body]
+        if len(body) == 1 and isinstance(body[0], ast.Try) and len(body[0].handlers) == 1 and not body[0].orelse and not body[0].finalbody \
+                and [U(x.target) for x in body[0].body if isinstance(x, ast.AugAssign)] == [want_t] and len(body[0].body) == 1 \
+                and [type(x).__name__ for x in body[0].handlers[0].body] == ['Assign', 'AugAssign']:
+            shape = 'try'
+        elif len(body) == 2 and isinstance(body[0], ast.If) and not body[0].orelse and isinstance(body[1], ast.AugAssign) \
+                and U(body[0].test) in ('len(%s) not in %s' % (it, cnt),) and [type(x).__name__ for x in body[0].body] == ['Assign']:
+            shape = 'if-not-in'
+        if wrong or skips:
+            ok = False
+            ctx.bad(rule, uq, 'length-indexed update: %s' % (wrong or [U(x) for x in skips]),
+                    'every item must be counted exactly once under its own length: counter[len(item)][item] += 1', None, lp)
+        elif shape is None or not augs:
+            ok = False
+            ctx.unk(rule, uq, 'length-indexed update is not in a recognised form (try/except create, or if-not-in create)')
+        else:
+            ctx.ok(rule, uq, 'length-indexed counters are keyed by len(item) of the item counted (%s form)' % shape)
     if ok:
         ctx.ok(rule, pq, 'each found list feeds exactly one, distinct counter', {'pairs': {k: v for k, v in counters.items()}})
 
